@@ -150,6 +150,18 @@ MULTIFILE_ORDER = [
     "main:\n    call fa\n    call fb\n    li a7, 10\n    ecall\nfa:\n    beqz a0, shared\n    li s1, 1\n    ret\nfb:\n    li s2, 2\nshared:\n    li s3, 3\n    ret\n",
 ]
 
+# several files that hold code at the same line/column/offset (anything keyed on a range alone confuses them)
+TWIN_FILES = [
+    {"main.s": "main:\n    li a0, 1\n    call pick\n    li a7, 10\n    ecall\npick:\n    beqz a0, other\n.include \"a.s\"\nother:\n.include \"b.s\"\n",
+     "a.s": "    li a0, 1\n    ret\n", "b.s": "    li a0, 2\n    ret\n"},
+    {"main.s": "main:\n    beqz a0, other\n.include \"a.s\"\nother:\n.include \"b.s\"\n",
+     "a.s": "    add a1, t0, t0\n    li a7, 10\n    ecall\n", "b.s": "    add a2, t0, t0\n    li a7, 10\n    ecall\n"},
+    {"main.s": "main:\n    call fa\n    call fb\n    li a7, 10\n    ecall\n.include \"a.s\"\n.include \"b.s\"\n",
+     "a.s": "fa:\n    li s1, 1\n    ret\n", "b.s": "fb:\n    li s2, 2\n    ret\n"},
+    {"main.s": "main:\n    li a0, 3\n    call f\n    li a7, 10\n    ecall\nf:\n    addi sp, sp, -16\n    beqz a0, z\n.include \"a.s\"\nz:\n.include \"b.s\"\n",
+     "a.s": "    li t0, 1\n    addi sp, sp, 16\n    ret\n", "b.s": "    li t0, 2\n    addi sp, sp, 12\n    ret\n"},
+]
+
 # functions sharing code: shared tails, several returns, interleaved layouts (C11, C10, C12)
 SHARED_PROGRAMS = [
     "main:\n    call fn_a\n    call fn_b\n    li a7, 10\n    ecall\nfn_a:\n    addi a0, a0, 1\n    j tail\nfn_b:\n    beqz a0, tail\n    li a0, 2\n    ret\ntail:\n    addi a0, a0, 3\n    ret\n",
